@@ -244,23 +244,6 @@ def det_runs(ctx, d, texts, files, opts, idx, use_valgrind=True):
     return res
 
 
-def vg_only_set_cxer_memcmp(summary):
-    """finding C12-set-cxer-map-uninit, as narrow as its cause: every error memcheck reports is the comparison of
-    the two tag maps in asn1c_lang_C_type_SET_def (memcmp/bcmp called from there, or the branch on its result)"""
-    blocks = [b for b in re.split(r"\n\s*\n", summary) if "at 0x" in b]
-    if not blocks:
-        return False
-    for b in blocks:
-        frames = re.findall(r"(?:at|by) 0x[0-9A-F]+: (\S+)", b)
-        if not frames:
-            return False
-        if frames[0] in ("bcmp", "memcmp", "__memcmp_avx2_movbe", "__memcmp_sse4_1"):
-            frames = frames[1:]
-        if not frames or frames[0] != "asn1c_lang_C_type_SET_def":
-            return False
-    return True
-
-
 def report_det(run, rep, r, what):
     """turns a det_runs result into violations / counters; returns True when quiet"""
     ok = True
@@ -274,13 +257,9 @@ def report_det(run, rep, r, what):
     if "vg" in r:
         run.count("valgrind_runs" if r["vg"][0] != 999 else "valgrind_timeouts")
         if r["vg"][0] == VG_RC:
-            if vg_only_set_cxer_memcmp(r["vg"][1]) and not bad:
-                run.known_finding("C12-set-cxer-map-uninit", what)
-                run.count("valgrind_known:C12-set-cxer-map-uninit")
-            else:
-                ok = False
-                run.violation("oracle:uninitialised-read", dict(rep, what="valgrind memcheck reports an error in asn1c (%s)" % what,
-                              valgrind=r["vg"][1]))
+            ok = False
+            run.violation("oracle:uninitialised-read", dict(rep, what="valgrind memcheck reports an error in asn1c (%s)" % what,
+                          valgrind=r["vg"][1]))
     return ok
 
 
@@ -829,6 +808,14 @@ def main(tier):
           "Refc ::= INTEGER (INCLUDES Base (0..5))\nEND\n") % (
         rng.range(50, 99), rng.range(2, 40), rng.range(100, 200), rng.range(2, 5), rng.range(6, 9), rng.range(2, 30))
     rich.append(({"name": "WitIncl", "text": wi, "blocks": ["witness-includes-inline"], "alph": {}, "ids": []}, OPTION_SETS[0], []))
+    # SET types at the decision "separate canonical-XER tag map or `Same as above`" (asn1c_lang_C_type_SET_def; it was taken by a memcmp over
+    # tag2el_count BYTES, uninitialised ones included, until the repair of C12-set-cxer-map-uninit): five and more components with equal
+    # maps (memcheck must be silent, `Same as above`), and an extensible SET whose additions are not in tag order (the maps differ from
+    # the second/third entry on: the canonical-XER map must be emitted, root sorted by tag, additions in definition order)
+    ws = ("WitSetCxer DEFINITIONS ::= BEGIN\n"
+          "SetSame ::= SET { a [1] INTEGER, b [3] INTEGER, c [5] INTEGER, d [7] INTEGER, e [9] INTEGER, f [11] BOOLEAN OPTIONAL }\n"
+          "SetExt ::= SET { a [%d] INTEGER, b [%d] INTEGER, ..., c [1] INTEGER, d [0] INTEGER }\nEND\n") % (rng.range(5, 9), rng.range(2, 4))
+    rich.append(({"name": "WitSetCxer", "text": ws, "blocks": ["witness-set-cxer"], "alph": {}, "ids": []}, OPTION_SETS[0], []))
     rich_futs = [pool.submit(case_rich, ctx, i, m, opts, extras) for i, (m, opts, extras) in enumerate(rich)]
     nclash = 14 if quick else 90
     csets = []
@@ -1018,6 +1005,17 @@ def main(tier):
         if report_det(run, rep, det, "rich module"):
             run.count("rich_determinism_ok")
         check_tables_in_tree(run, rep, r["tree"], m["alph"], cn)
+        if "witness-set-cxer" in m["blocks"]:
+            same_c = r["tree"].get("SetSame.c", b"").decode("latin1")
+            ext_c = r["tree"].get("SetExt.c", b"").decode("latin1")
+            mm = re.search(r"asn_MAP_SetExt_tag2el_cxer_1\[\] = \{\n(.*?)\n\};", ext_c, flags=re.S)
+            order = re.findall(r"/\* (\w+) \*/", mm.group(1)) if mm else None
+            if det["rc0"] != 0 or "tag2el_cxer_1[]" in same_c or "asn_MAP_SetSame_tag2el_1,\t/* Same as above */" not in same_c or order != ["b", "a", "c", "d"]:
+                run.violation("oracle:set-cxer-map", dict(rep, what="canonical-XER tag map of a SET: expected `Same as above` for SetSame (equal maps) and a separate "
+                              "map b,a,c,d for SetExt (root by tag, additions in definition order)", rc=det["rc0"], setext_order=order,
+                              setsame_has_own_map="tag2el_cxer_1[]" in same_c))
+            else:
+                run.count("set_cxer_map_ok")
         rc1, rc2, same, rc_as_gen = r["P"]
         if rc1 != rc2 or not same:
             run.violation("oracle:determinism", dict(rep, what="asn1c -P printed different text on a second run", rcs=[rc1, rc2]))
